@@ -98,10 +98,12 @@ func main() {
 				code = ee.ExitCode()
 			}
 		}
-		if code == 1 && exit != 2 {
+		// a confirmed violation (exit 1, VIOLATION line printed by the engine) is the stronger
+		// statement: harness trouble in another engine does not turn it into "trouble"
+		if code == 1 {
 			exit = 1
 		}
-		if code >= 2 {
+		if code >= 2 && exit == 0 {
 			exit = 2
 		}
 		b, err := os.ReadFile(filepath.Join(outDir(), "evidence", e.name+".json"))
